@@ -549,6 +549,18 @@ class C11(object):
                 r.oracle_fail = 'expansion changed a probability'
             elif abs(sum(look(oe).values()) - sum(look(src).values())) > 1e-7:   # entries within the null tolerance may be dropped
                 r.oracle_fail = 'expansion changed the total mass'
+        # correspondence with Core/PruneExpand.lean (the rebuilt distribution's whole observable record)
+        if base == 'linear' and not r.oracle_fail:
+            dj = gen.dist_json(d, klass)
+            for name, args, ob in (('prune', [dj, []], op_), ('expand', [dj, bool(case['union'])], oe)):
+                mo = drv.call(name, args)
+                if mo[0] != 'ok':
+                    r.mismatch = '%s: the model rejects the rebuilt distribution (%s)' % (name, mo[1])
+                    break
+                diff = gen.compare_obs(ob, gen.obs_model(mo[1]), exact=False)
+                if diff:
+                    r.mismatch = '%s: %s' % (name, diff)
+                    break
 
     def run_example(self, case, drv, r):
         dit = import_dit()
